@@ -286,6 +286,27 @@ pub fn check(ctx: &Ctx, rep: &mut Report) {
         }
         let mut rng = ctx.rng("quoted", k);
         let (prefix, run, suffix, q, expect) = quoted_case(&mut rng);
+        if q != '[' && rng.chance(1, 8) {
+            // the input ends inside the run, right after a doubled delimiter: nothing closes the run, so it
+            // extends to the end of the input as one quoted token
+            let open_run = format!("{run}{q}");
+            let s = format!("{prefix}{open_run}");
+            if let Some(toks) = basic(ctx, rep, n, &s) {
+                rep.count("unterminated_runs_ending_in_a_doubled_delimiter", 1);
+                let ok = matches!(toks.last(), Some(Token::Quoted(x)) if *x == open_run);
+                if !ok {
+                    rep.violation(
+                        "R.quoted-run",
+                        "-",
+                        format!("{q} unterminated, ends in a doubled delimiter: {}", shape(&open_run)),
+                        json!({"input": show(&s), "expected_last_token": show(&open_run), "got": format!("{:?}", toks.last())}),
+                        ctx.shard,
+                        n,
+                    );
+                }
+            }
+            continue;
+        }
         let s = format!("{prefix}{run}{suffix}");
         let toks = match basic(ctx, rep, n, &s) {
             Some(t) => t,
